@@ -302,10 +302,18 @@ func (w *World) genTx(n *Node) (*ledger.Transaction, string) {
 	if r.Chance(1, 3) { // leave more than the minimal fee
 		rest -= r.U64n(rest/2 + 1)
 	}
-	y1 := r.Chance(1, 5)
+	y1 := r.Chance(1, 4)
 	p.outs = []*JOutput{{rcpt.Addr, y1, amount}}
 	if rest > 0 || r.Chance(1, 2) {
-		p.outs = append(p.outs, &JOutput{first.owner.Addr, !y1 && r.Chance(1, 6), rest})
+		p.outs = append(p.outs, &JOutput{first.owner.Addr, (!y1 || first.owner != rcpt) && r.Chance(1, 4), rest})
+	}
+	if r.Chance(1, 8) && amount > 2 {
+		// a third output, yielding, to yet another wallet
+		third := w.wallets[r.Intn(len(w.wallets))]
+		if third != rcpt && third != first.owner {
+			p.outs[0].Value = amount / 2
+			p.outs = append(p.outs, &JOutput{third.Addr, true, amount - amount/2})
+		}
 	}
 	switch kind {
 	case "low-fee":
@@ -365,9 +373,34 @@ func (w *World) mutateChain(blocks []*JBlock) ([]*JBlock, string) {
 		return bs, "none"
 	}
 	j := 1 + r.Intn(len(bs)-1)
+	var b *JBlock
 	kind := []string{"ts-shift", "future", "two-rewards", "no-reward", "big-reward", "tx-late", "tx-early", "bad-link",
-		"truncate", "drop-first", "reward-yield", "dup-tx", "added-bogus", "removed-bogus", "stale", "big-reward-1"}[r.Intn(16)]
-	b := bs[j]
+		"truncate", "drop-first", "reward-yield", "dup-tx", "added-bogus", "removed-bogus", "stale", "big-reward-1", "unlist-yield", "yield-unlisted", "yield-unlisted"}[r.Intn(19)]
+	if kind == "yield-unlisted" {
+		// needs an ordinary transaction; prefer the last block holding one (no dependents above it)
+		for jj := len(bs) - 1; jj >= 1; jj-- {
+			found := false
+			for _, t := range bs[jj].Transactions {
+				if len(t.Inputs) != 0 {
+					found = true
+				}
+			}
+			if found {
+				j = jj
+				break
+			}
+		}
+	}
+	if kind == "unlist-yield" {
+		// prefer a block that lists new addresses
+		for tries := 0; tries < len(bs); tries++ {
+			if len(bs[j].AddedRegisteredAddresses) > 0 {
+				break
+			}
+			j = 1 + (j % (len(bs) - 1))
+		}
+	}
+	b = bs[j]
 	findReward := func() *JTx {
 		for _, t := range b.Transactions {
 			if len(t.Inputs) == 0 {
@@ -451,6 +484,23 @@ func (w *World) mutateChain(blocks []*JBlock) ([]*JBlock, string) {
 		b.RemovedRegisteredAddresses = append(b.RemovedRegisteredAddresses, w.wallets[r.Intn(5)].Addr)
 	case "stale":
 		return bs[:len(bs)-1], kind
+	case "yield-unlisted":
+		// outputs are not signed: give an ordinary transaction two more (zero-valued) yielding outputs,
+		// the first to a fresh address that the block lists as newly registered, the second to a
+		// fresh address that is neither listed nor registered
+		for _, t := range b.Transactions {
+			if len(t.Inputs) != 0 {
+				t.Outputs = append(t.Outputs, &JOutput{"0xFreshListed", true, 0}, &JOutput{"0xFreshUnlisted", true, 0})
+				t.Id = t.ComputeId()
+				b.AddedRegisteredAddresses = append(b.AddedRegisteredAddresses, "0xFreshListed")
+				break
+			}
+		}
+	case "unlist-yield":
+		// a yielding recipient is no longer listed as newly registered (the last one listed)
+		if n := len(b.AddedRegisteredAddresses); n > 0 {
+			b.AddedRegisteredAddresses = append([]string(nil), b.AddedRegisteredAddresses[:n-1]...)
+		}
 	}
 	Relink(bs, j)
 	return bs, kind + fmt.Sprintf("@%d", j)
@@ -480,6 +530,10 @@ func (w *World) run(steps int) {
 	}
 	for s := 0; s < steps; s++ {
 		k := r.Intn(100)
+		if w.mode == "swap" && r.Chance(1, 3) {
+			w.yieldSwap()
+			continue
+		}
 		switch {
 		case k < 30: // a transaction for the host (and, usually, for the helpers too)
 			tx, kind := w.genTx(w.host)
@@ -576,12 +630,14 @@ func (w *World) run(steps int) {
 			hl := len(w.host.AllBlocks())
 			res := w.rec.Update(now, peers)
 			w.stats.Count(fmt.Sprintf("update/host%s/%s=%s", lenClass(hl), kinds, res[:indexOrLen(res, ':')]))
-		case k < 92: // helpers sync from the host (keeps the world connected)
+		case k < 86: // helpers sync from the host (keeps the world connected)
 			for _, h := range w.helpers {
 				if r.Chance(2, 3) {
 					helperSync(h, w.now, []*Peer{honestPeer("10.0.0.1:10600", w.host)})
 				}
 			}
+		case k < 94 && w.mode != "honest": // income juggling: two admitted transactions, only one order of which can be produced
+			w.yieldSwap()
 		default: // registry refresh
 			ans := map[string]int{}
 			for _, wl := range w.wallets {
@@ -594,6 +650,13 @@ func (w *World) run(steps int) {
 			}
 			w.rec.RegSync(ans)
 			w.stats.Count("regsync")
+			// the other nodes consult the same proof-of-humanity service
+			for _, h := range w.helpers {
+				if r.Chance(2, 3) {
+					h.Humans.answer = ans
+					h.Areg.Synchronize(0)
+				}
+			}
 		}
 	}
 }
@@ -616,4 +679,59 @@ func indexOrLen(s string, c byte) int {
 		}
 	}
 	return len(s)
+}
+
+// yieldSwap: an address holding a yielding output Y and a plain output P. T1 turns Y into a
+// plain output, T2 turns P into a yielding one. Submitted in that order both are pooled; if the
+// production shuffle tries T2 first, its fee computes but it cannot be applied (two incomes).
+func (w *World) yieldSwap() {
+	for _, wl := range w.wallets {
+		var y, p *spendable
+		for _, u := range w.host.Ureg.Utxos(wl.Addr) {
+			s := spendable{u.TransactionId(), u.OutputIndex(), u.Value(w.next(), w.set.HalfLife, w.set.Base, w.set.ILimit), wl}
+			if s.value <= w.set.Fee+2 {
+				continue
+			}
+			if u.IsYielding() && y == nil {
+				c := s
+				y = &c
+			} else if !u.IsYielding() && p == nil {
+				c := s
+				p = &c
+			}
+		}
+		if y == nil || p == nil {
+			continue
+		}
+		t1 := w.build(&txPlan{ins: []spendable{*y}, outs: []*JOutput{{wl.Addr, false, y.value - w.set.Fee - 1}}, ts: w.now})
+		t2 := w.build(&txPlan{ins: []spendable{*p}, outs: []*JOutput{{wl.Addr, true, p.value - w.set.Fee - 1}}, ts: w.now})
+		r1 := w.rec.Admit(t1)
+		r2 := w.rec.Admit(t2)
+		w.stats.Count("admit/yield-swap=" + r1 + "," + r2)
+		for _, h := range w.helpers {
+			h.Pool.AddTransaction(t1, "x", "y")
+			h.Pool.AddTransaction(t2, "x", "y")
+			h.Log.Take()
+		}
+		return
+	}
+	// nobody holds both kinds yet: give one wallet a yielding and a plain output
+	for _, src := range w.wallets {
+		conf := w.confirmed(w.host, src)
+		for _, u := range conf {
+			if u.value > 4*w.set.Fee+100 {
+				dst := w.wallets[1+w.r.Intn(len(w.wallets)-1)]
+				half := (u.value - w.set.Fee) / 2
+				tx := w.build(&txPlan{ins: []spendable{u}, outs: []*JOutput{{dst.Addr, true, half}, {dst.Addr, false, u.value - w.set.Fee - half}}, ts: w.now})
+				res := w.rec.Admit(tx)
+				w.stats.Count("admit/yield-swap-setup=" + res)
+				for _, h := range w.helpers {
+					h.Pool.AddTransaction(tx, "x", "y")
+					h.Log.Take()
+				}
+				return
+			}
+		}
+	}
+	w.stats.Count("admit/yield-swap=unavailable")
 }
